@@ -57,7 +57,7 @@ CHECKS = {
  "C12": dict(engine="E4", ref="8/C12",
    technique="bounded-exhaustive enumeration of all sequences/pairs, DP and 2^n brute-force oracles",
    text="Every sequence/pair within bounds through LCS/LIS/LNDS (+Func variants, reversed comparison); subsequence-ness, monotonicity, optimal length, input unmodified.",
-   note="Small alphabets and lengths; aliased arguments; float64 (NaN, signed zeros, infinities) and string element types."+LONG+"described pairs up to 4097/65537, sequences up to 300/2500."),
+   note="Small alphabets and lengths; aliased arguments; comparison callbacks that panic part-way before an ordinary call; float64 (NaN, signed zeros, infinities) and string element types."+LONG+"described pairs up to 4097/65537, sequences up to 300/2500."),
  "C13": dict(engine="E4", ref="8/C13",
    technique="bounded-exhaustive enumeration of all line-sequence pairs x all context sizes, chunk replay oracle",
    text="Every pair over small alphabets and every n: chunks after New/AddContext/Unify replay exactly to their ranges, context bounded by n, ordering/disjointness, splice gives Right, Edits undisturbed.",
@@ -73,7 +73,7 @@ CHECKS = {
  "C16": dict(engine="E4+E2", ref="8/C16",
    technique="bounded-exhaustive enumeration of inputs over the tokenizer's byte classes against a reference tokenizer; exhaustive enumeration of reader fragmentations and Rest points (choice tree over environment answers)",
    text="All strings to the length bound vs an independent POSIX tokenizer with measured (state,class) and transition-pair coverage; every fragmentation of every string to a bound, EOF-with-data and error injection at each position, Rest after every token.",
-   note="Reference tokenizer written from POSIX 2.2; validated against dash/bash when present."),
+   note="Reference tokenizer written from POSIX 2.2; validated against dash/bash when present. Reset after old readers ending in EOF or in another error in every tokenizer state; Rest called once and twice."),
  "C17": dict(engine="E4", ref="8/C17",
    technique="bounded-exhaustive enumeration of slices, keep patterns and numeric arguments with naive reference functions and aliasing oracle",
    text="All slices up to the length bound with spare capacity 0..2, all 2^n predicates, all k/n in and around the valid range; contents, order, identity/aliasing, capacity clipping (cap == len) and documented panics.",
